@@ -2,6 +2,7 @@
 // against the Coq model (bit-exact), plus the end-to-end search of the half-step bound on the real
 // Encoder/Decoder.   usage: h_C04 quick|thorough seed [tie] out     ("tie": correspondence cases, fewer end-to-end runs)
 #include "quant_common.h"
+#include "draco/point_cloud/point_cloud_builder.h"
 #include "draco/core/decoder_buffer.h"
 #include "draco/core/encoder_buffer.h"
 
@@ -136,6 +137,36 @@ static void add_boundary_values(Gen &G, std::vector<float> &col, float mn, float
 }
 
 // ---- end to end: the real Encoder/Decoder
+static bool g_force_raw = false;
+// kd-tree point clouds with 17 or more components in total (position + several 2-component float attributes), >= 64 points, low speeds:
+// the coder must fall back from the level that stores a 4-bit split axis; one attribute far down the list has by far the largest spread,
+// so its components are the preferred split axes.  Points are matched through a lossless uint32 id attribute.
+static void kd_wide_cases(Out &o, Gen &G, int count) {
+  Rng &r = G.r;
+  for (int k = 0; k < count; k++) {
+    const int n = (int)r.range(64, 140), extra = (int)r.range(7, 9), q = (int)r.range(6, 14), speed = (int)r.range(0, 4);
+    PointCloudBuilder pb; pb.Start(n); const int pos = pb.AddAttribute(GeometryAttribute::POSITION, 3, DT_FLOAT32); std::vector<int> ga(extra);
+    for (int a = 0; a < extra; a++) ga[a] = pb.AddAttribute(GeometryAttribute::GENERIC, 2, DT_FLOAT32); const int idatt = pb.AddAttribute(GeometryAttribute::GENERIC, 1, DT_UINT32);
+    std::vector<std::vector<float>> vals(n, std::vector<float>(3 + 2 * extra));
+    for (int i = 0; i < n; i++) { for (int c = 0; c < 3 + 2 * extra; c++) { const bool skew = c >= 3 + 2 * (extra - 1); vals[i][c] = skew ? (float)r.range(0, 100000) / 7.f : (float)r.range(0, 1000) / 16.f; }
+      pb.SetAttributeValueForPoint(pos, PointIndex(i), &vals[i][0]); for (int a = 0; a < extra; a++) pb.SetAttributeValueForPoint(ga[a], PointIndex(i), &vals[i][3 + 2 * a]); uint32_t id = (uint32_t)i; pb.SetAttributeValueForPoint(idatt, PointIndex(i), &id); }
+    auto pc = pb.Finalize(false); if (!pc) continue;
+    Encoder enc; enc.SetEncodingMethod(POINT_CLOUD_KD_TREE_ENCODING); enc.SetSpeedOptions(speed, speed); enc.SetAttributeQuantization(GeometryAttribute::POSITION, q); enc.SetAttributeQuantization(GeometryAttribute::GENERIC, q);
+    const std::string id = "kd-wide n=" + S(n) + " components=" + S(3 + 2 * extra) + "+id q=" + S(q) + " speed=" + S(speed);
+    EncoderBuffer eb; if (!enc.EncodePointCloudToBuffer(*pc, &eb).ok()) { o.note("encode failed: " + id); continue; }
+    DecoderBuffer db; db.Init(eb.data(), eb.size()); Decoder dec; auto res = dec.DecodePointCloudFromBuffer(&db);
+    if (!res.ok()) { o.fail("C04-e2e encode ok but decode failed: " + id); continue; }
+    const PointCloud &out = *res.value(); n_e2e++;
+    if ((int)out.num_points() != n || out.num_attributes() != 2 + extra) { o.fail("C04-e2e point / attribute count changed: " + id); continue; }
+    const PointAttribute *ida = out.attribute(1 + extra); bool bad = false;
+    for (int a = 0; a <= extra && !bad; a++) { const PointAttribute *oa = out.attribute(a); const int nc = a == 0 ? 3 : 2, off = a == 0 ? 0 : 3 + 2 * (a - 1);
+      float lo[3], hi[3], range = 0; for (int c = 0; c < nc; c++) { lo[c] = hi[c] = vals[0][off + c]; for (int i = 0; i < n; i++) { lo[c] = std::min(lo[c], vals[i][off + c]); hi[c] = std::max(hi[c], vals[i][off + c]); } range = std::max(range, hi[c] - lo[c]); }
+      const double step = (double)range / (double)((1ll << q) - 1);
+      for (PointIndex p(0); p < out.num_points() && !bad; ++p) { uint32_t pid = 0; ida->GetMappedValue(p, &pid); if (pid >= (uint32_t)n) { o.fail("C04-e2e id attribute (lossless) changed: " + id); bad = true; break; }
+        float v[3]; oa->GetMappedValue(p, v); for (int c = 0; c < nc; c++) { const double err = std::fabs((double)v[c] - (double)vals[pid][off + c]); n_bound++;
+          if (!(err <= step / 2 + 8 * 1.1920929e-7 * std::max<double>(std::fabs(vals[pid][off + c]), range))) { o.fail("C04-bound e2e " + id + " attribute " + S(a) + " component " + S(c) + ": error " + std::to_string(err) + " > half step " + std::to_string(step / 2)); bad = true; break; } } } }
+  }
+}
 static void e2e_case(Out &o, Gen &G, int method, int q, int n_target, int style, bool explicit_range) {
   bool mesh = method >= M_MESH_SEQ;
   int nc = mesh ? 3 : (int)G.r.range(1, 4);
@@ -158,7 +189,7 @@ static void e2e_case(Out &o, Gen &G, int method, int q, int n_target, int style,
       range = std::ceil(hi - o0) + 1.f + (float)G.r.below(4) * 0.5f;
     }
   }
-  g_enc_builtin_compression = !G.r.chance(20); g_enc_position_prediction = G.r.chance(15) ? (int)PREDICTION_NONE : -1;   // raw value bytes / no prediction
+  g_enc_builtin_compression = !G.r.chance(20) && !g_force_raw; g_enc_position_prediction = G.r.chance(15) ? (int)PREDICTION_NONE : -1;   // raw value bytes / no prediction
   Decoded d = encode_decode(g, method, speed, q, explicit_range ? origin.data() : nullptr, range);
   std::string id = std::string(method_name(method)) + " speed=" + S(speed) + " q=" + S(q) + " nc=" + S(nc) + " n=" + S(g.n()) +
                    (explicit_range ? " explicit" : " auto") + (g_enc_builtin_compression ? "" : " raw-values") + (g_enc_position_prediction == -1 ? "" : " no-prediction");
@@ -329,6 +360,9 @@ int main(int argc, char **argv) {
   // the kd-tree path at high bit counts (no symbol coder involved, cheap): for q >= 24 the float quantizer can return 2^q for the
   // maximum of the range, one bit more than the quantization bits
   if (!tie_only) for (int q = 23; q <= 30; q++) for (int k = 0; k < (thorough ? 6 : 2); k++) e2e_case(o, G, M_PC_KD, q, (int)r.range(2, 40), -1, false);
+  // raw (not entropy-coded) values of every byte width incl. 4 bytes (q >= 25), every method that has the raw path
+  if (!tie_only) for (int q : {9, 17, 25, 27, 30}) for (int method : {(int)M_PC_SEQ, (int)M_MESH_SEQ, (int)M_MESH_EB}) { g_force_raw = true; e2e_case(o, G, method, q, (int)r.range(3, 30), -1, false); g_force_raw = false; }
+  if (!tie_only) kd_wide_cases(o, G, thorough ? 12 : 4);
   if (thorough && !tie_only) for (int q = 23; q <= 26; q++) for (int method = 0; method < 4; method++)
     e2e_case(o, G, method, q, 12, -1, false);
 
